@@ -117,55 +117,128 @@ func c10R1(c *Ctx) {
 			}
 		}
 	}
-	// (b) WithCodec only in addTransceiverSDP, fed from getCodecs()
+	// (b) every operand of every WithCodec call derives only from getCodecs(); when the codec line is emitted by a
+	// helper, its parameters are bound to the arguments of every call site (transitively)
 	withCodec := c10SDPMethod(c, "WithCodec")
 	if withCodec == nil {
 		r.Fail(rule, "anchor:sdp.MediaDescription.WithCodec", "-", "method no longer resolves (fails closed)")
 		return
 	}
-	nIn := 0
+	up := c10NewUpProv(c)
+	total := 0
 	for _, fi := range c.P.AllFuncs() {
 		if fi.Decl.Body == nil {
 			continue
 		}
 		info := fi.Pkg.TypesInfo
+		k := 0
 		ast.Inspect(fi.Decl.Body, func(n ast.Node) bool {
-			if call, ok := n.(*ast.CallExpr); ok && core.IsCallTo(info, call, withCodec) {
-				if fi == addT {
-					nIn++
-				} else {
-					r.Fail(rule, "call:WithCodec|in:"+fi.Name(), c.P.Pos(call.Pos()), "a codec line is emitted outside addTransceiverSDP: its codec list does not come from getCodecs()")
+			call, ok := n.(*ast.CallExpr)
+			if !ok || !core.IsCallTo(info, call, withCodec) {
+				return true
+			}
+			k++
+			total++
+			bad := ""
+			for _, a := range call.Args {
+				lv := up.leaves(fi, a, 0)
+				for key, lf := range lv {
+					if lf.Kind == "call" && lf.Fn == getCodecs.Obj {
+						continue
+					}
+					bad = "operand " + exprStr(a) + " derives from " + key
+				}
+			}
+			r.Check(bad == "", rule, sprintf("%s|WithCodec#%d|operands-from-getCodecs", fi.Name(), k), c.P.Pos(call.Pos()), "all operands derive from elements of transceiver.getCodecs()", "a codec line is built from something other than getCodecs(): "+bad)
+			return true
+		})
+	}
+	if total == 0 {
+		r.Fail(rule, "call:WithCodec", c.P.Pos(addT.Decl.Pos()), "no codec line is emitted anywhere (WithCodec is never called): the rule lost its anchor")
+	}
+}
+
+// c10UpProv resolves provenance across helper boundaries upwards: a parameter leaf of an unexported function that is
+// only ever called directly is replaced by the provenance of the corresponding argument at every call site.
+type c10UpProv struct {
+	c       *Ctx
+	provs   map[*core.FuncInfo]*core.Prov
+	callers map[*types.Func][]c10CallSite
+	escapes map[*types.Func]bool // used as a value (not in call position)
+}
+
+type c10CallSite struct {
+	fi   *core.FuncInfo
+	call *ast.CallExpr
+}
+
+func c10NewUpProv(c *Ctx) *c10UpProv {
+	u := &c10UpProv{c: c, provs: map[*core.FuncInfo]*core.Prov{}, callers: map[*types.Func][]c10CallSite{}, escapes: map[*types.Func]bool{}}
+	for _, fi := range c.P.AllFuncs() {
+		if fi.Decl.Body == nil {
+			continue
+		}
+		info := fi.Pkg.TypesInfo
+		inCallPos := map[*ast.Ident]bool{}
+		ast.Inspect(fi.Decl.Body, func(n ast.Node) bool {
+			switch x := n.(type) {
+			case *ast.CallExpr:
+				if fn := core.Callee(info, x); fn != nil && c.P.DeclOf(fn) != nil {
+					u.callers[fn] = append(u.callers[fn], c10CallSite{fi, x})
+					switch f := ast.Unparen(x.Fun).(type) {
+					case *ast.Ident:
+						inCallPos[f] = true
+					case *ast.SelectorExpr:
+						inCallPos[f.Sel] = true
+					}
+				}
+			case *ast.Ident:
+				if fn, ok := info.Uses[x].(*types.Func); ok && !inCallPos[x] && c.P.DeclOf(fn) != nil {
+					u.escapes[fn.Origin()] = true
 				}
 			}
 			return true
 		})
 	}
-	if nIn == 0 {
-		r.Fail(rule, "call:WithCodec|in:"+addT.Name(), c.P.Pos(addT.Decl.Pos()), "addTransceiverSDP no longer calls WithCodec: the rule lost its anchor")
-		return
+	return u
+}
+
+func (u *c10UpProv) prov(fi *core.FuncInfo) *core.Prov {
+	if p := u.provs[fi]; p != nil {
+		return p
 	}
-	pv := core.NewProv(c.P, addT)
-	pv.Summary = c10StdSummary
-	info := addT.Pkg.TypesInfo
-	k := 0
-	ast.Inspect(addT.Decl.Body, func(n ast.Node) bool {
-		call, ok := n.(*ast.CallExpr)
-		if !ok || !core.IsCallTo(info, call, withCodec) {
-			return true
+	p := core.NewProv(u.c.P, fi)
+	p.Summary = c10StdSummary
+	u.provs[fi] = p
+	return p
+}
+
+func (u *c10UpProv) leaves(fi *core.FuncInfo, e ast.Expr, depth int) map[string]core.Leaf {
+	out := map[string]core.Leaf{}
+	for k, lf := range u.prov(fi).Leaves(e) {
+		if lf.Kind != "param" || depth >= 3 || fi.Obj.Exported() || u.escapes[fi.Obj] || len(u.callers[fi.Obj]) == 0 {
+			if lf.Kind == "param" {
+				k = "param:" + lf.Name + " of " + fi.Name()
+			}
+			out[k] = lf
+			continue
 		}
-		k++
-		bad := ""
-		for _, a := range call.Args {
-			for key, lf := range pv.Leaves(a) {
-				if lf.Kind == "call" && lf.Fn == getCodecs.Obj {
-					continue
+		sig := fi.Obj.Type().(*types.Signature)
+		for _, cs := range u.callers[fi.Obj] {
+			var args []ast.Expr
+			if sig.Variadic() && lf.Idx == sig.Params().Len()-1 {
+				args = cs.call.Args[min(lf.Idx, len(cs.call.Args)):]
+			} else if lf.Idx < len(cs.call.Args) {
+				args = cs.call.Args[lf.Idx : lf.Idx+1]
+			}
+			for _, a := range args {
+				for k2, l2 := range u.leaves(cs.fi, a, depth+1) {
+					out[k2] = l2
 				}
-				bad = "operand " + exprStr(a) + " derives from " + key
 			}
 		}
-		r.Check(bad == "", rule, sprintf("%s|WithCodec#%d|operands-from-getCodecs", addT.Name(), k), c.P.Pos(call.Pos()), "all operands derive from elements of transceiver.getCodecs()", "a codec line is built from something other than getCodecs(): "+bad)
-		return true
-	})
+	}
+	return out
 }
 
 // c10SDPMethod resolves a method of github.com/pion/sdp/v3.MediaDescription through the root package's imports.
@@ -392,7 +465,7 @@ func c10R2Filter(c *Ctx, rule string, filter, prim *core.FuncInfo) {
 			if c15RootVar(info, l) != list {
 				continue
 			}
-			if core.VarOf(info, l) == list && len(as.Rhs) == len(as.Lhs) && c10IsRemoveAt(info, as.Rhs[i], list, idx) {
+			if core.VarOf(info, l) == list && len(as.Rhs) == len(as.Lhs) && (c10IsRemoveAt(info, as.Rhs[i], list, idx) || c10IsRemoveAtHelper(c, info, as.Rhs[i], list, idx)) {
 				removal[n.ID] = true
 				continue
 			}
@@ -747,6 +820,46 @@ func c10R3(c *Ctx) {
 		}
 		return
 	}
+	// every function of the root package that emits a codec line or an rtcp-fb attribute (addTransceiverSDP itself,
+	// or a helper the emission loop was moved into) is judged on its own: the relation is local to the loop
+	totalFB, totalLoops := 0, 0
+	for _, fi := range c.P.AllFuncs() {
+		if fi.Decl.Body == nil || fi.Pkg != addT.Pkg {
+			continue
+		}
+		emits := false
+		finfo := fi.Pkg.TypesInfo
+		ast.Inspect(fi.Decl.Body, func(x ast.Node) bool {
+			if call, ok := x.(*ast.CallExpr); ok {
+				if core.IsCallTo(finfo, call, withCodec) {
+					emits = true
+				}
+				if core.IsCallTo(finfo, call, withValue) && len(call.Args) == 2 {
+					if tv := finfo.Types[call.Args[0]]; tv.Value != nil && tv.Value.Kind() == constant.String && constant.StringVal(tv.Value) == "rtcp-fb" {
+						emits = true
+					}
+				}
+			}
+			return true
+		})
+		if !emits {
+			continue
+		}
+		nfb, nl := c10R3In(c, rule, fi, ptF, fbF, withCodec, withValue)
+		totalFB += nfb
+		totalLoops += nl
+	}
+	if totalFB == 0 {
+		r.Fail(rule, "rtcp-fb", c.P.Pos(addT.Decl.Pos()), "no rtcp-fb attribute is emitted anywhere: the rule lost its anchor")
+	}
+	if totalLoops == 0 {
+		r.Fail(rule, "codec-loop", c.P.Pos(addT.Decl.Pos()), "no loop emits the codec line with the loop variable's PayloadType")
+	}
+}
+
+// c10R3In judges the rtcp-fb attributes and the codec loop(s) of one function.
+func c10R3In(c *Ctx, rule string, addT *core.FuncInfo, ptF, fbF *types.Var, withCodec, withValue *types.Func) (int, int) {
+	r := c.R
 	g := c.P.GraphOf(addT)
 	info := g.Info
 	fn := addT.Name()
@@ -843,10 +956,7 @@ func c10R3(c *Ctx) {
 		r.Check(bad == "", rule, key, p, "payload type and feedback of the iteration's codec", bad)
 		return true
 	})
-	if n == 0 {
-		r.Fail(rule, fn+"|rtcp-fb", c.P.Pos(addT.Decl.Pos()), "no rtcp-fb attribute is emitted: the rule lost its anchor")
-	}
-	// the codec loop exists
+	// the codec loop(s) of this function
 	loops := 0
 	ast.Inspect(addT.Decl.Body, func(x ast.Node) bool {
 		if rs, ok := x.(*ast.RangeStmt); ok && codecVarOf(rs) != nil {
@@ -854,5 +964,27 @@ func c10R3(c *Ctx) {
 		}
 		return true
 	})
-	r.Check(loops >= 1, rule, fn+"|codec-loop", c.P.Pos(addT.Decl.Pos()), sprintf("%d loop(s) emit WithCodec(uint8(v.PayloadType), ...)", loops), "no loop emits the codec line with the loop variable's PayloadType")
+	if loops >= 1 {
+		r.OK(rule, fn+"|codec-loop", c.P.Pos(addT.Decl.Pos()), sprintf("%d loop(s) emit WithCodec(uint8(v.PayloadType), ...)", loops))
+	}
+	return n, loops
+}
+
+// c10IsRemoveAtHelper: e is helper(list, idx) for a same-module function whose only statement returns its first
+// parameter with the element at its second parameter removed.
+func c10IsRemoveAtHelper(c *Ctx, info *types.Info, e ast.Expr, list, idx *types.Var) bool {
+	call, ok := ast.Unparen(e).(*ast.CallExpr)
+	if !ok || len(call.Args) != 2 || core.VarOf(info, call.Args[0]) != list || core.VarOf(info, call.Args[1]) != idx {
+		return false
+	}
+	fi := c.P.DeclOf(core.Callee(info, call))
+	if fi == nil || fi.Decl.Body == nil || len(fi.Decl.Body.List) != 1 {
+		return false
+	}
+	ret, ok := fi.Decl.Body.List[0].(*ast.ReturnStmt)
+	sig := fi.Obj.Type().(*types.Signature)
+	if !ok || len(ret.Results) != 1 || sig.Params().Len() != 2 {
+		return false
+	}
+	return c10IsRemoveAt(fi.Pkg.TypesInfo, ret.Results[0], sig.Params().At(0), sig.Params().At(1))
 }
